@@ -488,7 +488,46 @@ def setup_violation(spec):
     return []
 
 
+def eval_none_default(case):
+    """verification against a missing hash, for EVERY usable scheme as the context's default (incl. the ones that
+    truncate, with truncate_error on, and the ones that need a user / realm): False, and exactly one dummy
+    verification by the default scheme"""
+    from passlib.context import CryptContext
+
+    name, te = case["scheme"], case["truncate_error"]
+    kw = {"schemes": [name, "unix_disabled"]}
+    for k, v in HS.min_cost_kw(name).items():
+        kw[f"{name}__{k}"] = v
+    if te:
+        kw["truncate_error"] = True
+    key = f"C18|verify(hash=None)|default_scheme:{name}:"
+    try:
+        ctx = CryptContext(**kw)
+    except Exception as e:  # noqa: BLE001
+        return [(key + f"context_setup:raises:{_exc(e)}", f"CryptContext(**{kw!r}) raised {e!r}")]
+    out = []
+
+    class W:
+        pass
+
+    w = W()
+    w.ctx = ctx
+    for api, call, want in (("verify", lambda: ctx.verify("pw", None), False), ("verify_and_update", lambda: ctx.verify_and_update("pw", None), (False, None)),
+                            ("verify", lambda: ctx.verify("", None), False), ("dummy_verify", lambda: ctx.dummy_verify(), False)):
+        res, counts = counted_none_verify(w, call)
+        if res[0] == "exc":
+            out.append((key + f"{api}:raises:{_exc(res[1])}", f"CryptContext(**{kw!r}).{api}(.., None) raised {res[1]!r}, expected {want!r}"))
+        elif res[1] != want:
+            out.append((key + f"{api}:not_false", f"CryptContext(**{kw!r}).{api}(.., None) = {res[1]!r}, expected {want!r}"))
+        elif counts["verify"] != 1:
+            out.append((key + f"{api}:dummy_verifications:{'none' if counts['verify'] == 0 else 'several'}",
+                        f"CryptContext(**{kw!r}).{api}(.., None) ran the default scheme's verify() {counts['verify']} times"))
+    return out
+
+
 def replay(case):
+    if case.get("part") == "none_default":
+        return eval_none_default(case)
     spec, init = case["ctx"], case["init"]["value"]
     if setup_violation(spec):
         return setup_violation(spec)
@@ -543,6 +582,15 @@ def initial_values(seed):
 # ---------------------------------------------------------------------------
 def work(task):
     acc = Acc()
+    if task.get("part") == "none_default":
+        for case in task["cases"]:
+            acc.ev()
+            acc.cls("none_default", case["scheme"], case["truncate_error"])
+            vs = eval_none_default(case)
+            acc.outcome(("none_default", "viol" if vs else "ok"))
+            for key, desc in vs:
+                acc.violation(key, desc, case)
+        return acc
     spec = task["ctx"]
     depth = task["depth"]
     answers = task["answers"]
@@ -594,6 +642,10 @@ def run(ctx):
     for spec in specs:
         for chunk in core.chunked(inits, 12):
             tasks.append({"ctx": spec, "inits": chunk, "depth": depth, "answers": answers})
+    nd = [{"part": "none_default", "scheme": n, "truncate_error": te} for n in HS.usable_names() if n not in DISABLED and HS.SLOW.get(n, 0) < 3
+          for te in ((False, True) if "truncate_error" in HS.g(n, "setting_kwds", ()) else (False,))]
+    for chunk in core.chunked(nd, 8):
+        tasks.append({"part": "none_default", "cases": chunk})
     ctx.log(f"{len(specs)} contexts x {len(inits)} initial values = {len(specs) * len(inits)} roots, depth {depth}, {len(tasks)} shards")
     acc = core.pmap(work, tasks)
     ctx.merge(acc)
